@@ -29,6 +29,8 @@ pub enum CovKind {
     EnvConsistent,
     /// true iff the hash of the spender's first covenant equals the self-hash slot (heap 4) and the creation height (heap 8) is below h
     SelfHashAndHeightBelow(u64),
+    /// a randomly generated program (bytes given)
+    Random(Vec<u8>),
     /// undecodable bytes
     Garbage,
     /// returns a byte string (truthy) / empty vector
@@ -96,6 +98,7 @@ pub fn cov_bytes(kind: &CovKind, keys: &[(Ed25519PK, Ed25519SK)]) -> Vec<u8> {
                 And,
             ]).to_bytes().to_vec()
         }
+        CovKind::Random(b) => b.clone(),
         CovKind::Garbage => vec![0xf0, 0x05, 0x01],
         CovKind::ReturnsBytes => Covenant::from_ops(&[BEmpty]).to_bytes().to_vec(),
     }
@@ -122,7 +125,7 @@ impl Wallet {
 
     pub fn random_address(&mut self, r: &mut StdRng) -> Address {
         let nk = self.keys.len();
-        let kind = match if self.simple { r.gen_range(0..30) } else { r.gen_range(0..44) } {
+        let kind = match if self.simple { r.gen_range(0..30) } else { r.gen_range(0..48) } {
             0..=11 => CovKind::Legacy(r.gen_range(0..nk)),
             12..=23 => CovKind::New(r.gen_range(0..nk)),
             24..=29 => CovKind::True,
@@ -136,7 +139,15 @@ impl Wallet {
             38 => CovKind::Garbage,
             39 => CovKind::ReturnsBytes,
             40 | 41 => CovKind::EnvConsistent,
-            _ => CovKind::SelfHashAndHeightBelow(r.gen_range(1..12)),
+            42 | 43 => CovKind::SelfHashAndHeightBelow(r.gen_range(1..12)),
+            _ => {
+                // randomly generated covenant: a type-aware random program, biased to end with something on the stack
+                let mut ops = crate::vm::gen_typed(r);
+                if r.gen_bool(0.5) {
+                    ops.push(melvm::opcode::OpCode::PushIC(U256::from(r.gen_range(0u32..2))));
+                }
+                CovKind::Random(Covenant::from_ops(&ops).to_bytes().to_vec())
+            }
         };
         self.address(kind)
     }
